@@ -24,11 +24,36 @@ class PyFuncT(T.Ty):
     def name(self): return "PyFunc"
 PyFunc = PyFuncT()    # t = ('func', qual) | ('bound', qual, self_sv) | ('class', qual) | ('lambda', node, env)
 
-_fresh = itertools.count()
+_counter = [0]
+def _next():
+    _counter[0] += 1
+    return _counter[0]
+def fresh_mark():
+    """every constant created by fresh()/fresh_sort() from now on has a number greater than the returned mark"""
+    return _counter[0]
 def fresh(prefix, ty):
-    return z3.Const("%s!%d" % (prefix, next(_fresh)), T.sort_of(ty))
+    return z3.Const("%s!%d" % (prefix, _next()), T.sort_of(ty))
 def fresh_sort(prefix, sort):
-    return z3.Const("%s!%d" % (prefix, next(_fresh)), sort)
+    return z3.Const("%s!%d" % (prefix, _next()), sort)
+
+def new_consts(exprs, mark):
+    """uninterpreted constants named '<x>!<n>' with n > mark occurring in exprs"""
+    out = {}; seen = set(); stack = list(exprs)
+    while stack:
+        e = stack.pop()
+        if e.get_id() in seen: continue
+        seen.add(e.get_id())
+        if z3.is_quantifier(e):
+            stack.append(e.body()); continue
+        if z3.is_app(e):
+            if e.num_args() == 0 and e.decl().kind() == z3.Z3_OP_UNINTERPRETED:
+                nm = e.decl().name()
+                if "!" in nm:
+                    tail = nm.rsplit("!", 1)[1]
+                    if tail.isdigit() and int(tail) > mark: out[nm] = e
+            else:
+                stack.extend(e.children())
+    return list(out.values())
 
 class Obligation:
     def __init__(self, name, func, kind, line, assumptions, goal, props=(), note="", extra_decls=()):
